@@ -15,22 +15,14 @@ package main
 
 import (
 	"fmt"
-	"math"
 	"os"
-	"reflect"
-	"runtime/debug"
-	"sort"
-	"strconv"
 	"strings"
 	"time"
 
-	"github.com/krotik/ecal/interpreter"
-	"github.com/krotik/ecal/parser"
-	"github.com/krotik/ecal/scope"
-	"github.com/krotik/ecal/util"
 )
 
 func init() {
+	interpPanicKey = c06panicKey
 	register("C06-interp", func(c *Ctx) error { c06interpStream(c); return nil })
 	// development aid: print the Coq term of the tree of the program in $VERIF_SRC and its outcome
 	register("C06-interp-tree", func(c *Ctx) error {
@@ -42,267 +34,6 @@ func init() {
 
 const c06interpHeader = "From Coq Require Import ZArith NArith String List.\nFrom Ecal Require Import Common.Ast gen.Tokens Run.RunC06Interp.\nImport ListNotations.\nOpen Scope string_scope."
 
-
-// ------------------------------------------------------------------------------- tree emission
-
-// c06iNodeConst maps a node name to the constant of gen/Tokens.v (regenerated from /repo) that
-// holds it: elaborating a constant is far cheaper for coqc than a string literal.  The term is
-// the same [node] CoqNode writes.
-var c06iNodeConst = map[string]string{
-	parser.NodeAND: "NodeAND", parser.NodeAS: "NodeAS", parser.NodeASSIGN: "NodeASSIGN", parser.NodeBREAK: "NodeBREAK",
-	parser.NodeCOMPACCESS: "NodeCOMPACCESS", parser.NodeCONTINUE: "NodeCONTINUE", parser.NodeDIV: "NodeDIV",
-	parser.NodeDIVINT: "NodeDIVINT", parser.NodeEQ: "NodeEQ", parser.NodeEXCEPT: "NodeEXCEPT", parser.NodeFALSE: "NodeFALSE",
-	parser.NodeFINALLY: "NodeFINALLY", parser.NodeFUNC: "NodeFUNC", parser.NodeFUNCCALL: "NodeFUNCCALL", parser.NodeGEQ: "NodeGEQ",
-	parser.NodeGT: "NodeGT", parser.NodeGUARD: "NodeGUARD", parser.NodeHASPREFIX: "NodeHASPREFIX", parser.NodeHASSUFFIX: "NodeHASSUFFIX",
-	parser.NodeIDENTIFIER: "NodeIDENTIFIER", parser.NodeIF: "NodeIF", parser.NodeIN: "NodeIN", parser.NodeKVP: "NodeKVP",
-	parser.NodeLEQ: "NodeLEQ", parser.NodeLET: "NodeLET", parser.NodeLIKE: "NodeLIKE", parser.NodeLIST: "NodeLIST",
-	parser.NodeLOOP: "NodeLOOP", parser.NodeLT: "NodeLT", parser.NodeMAP: "NodeMAP", parser.NodeMINUS: "NodeMINUS",
-	parser.NodeMODINT: "NodeMODINT", parser.NodeMUTEX: "NodeMUTEX", parser.NodeNEQ: "NodeNEQ", parser.NodeNOT: "NodeNOT",
-	parser.NodeNOTIN: "NodeNOTIN", parser.NodeNULL: "NodeNULL", parser.NodeNUMBER: "NodeNUMBER", parser.NodeOR: "NodeOR",
-	parser.NodeOTHERWISE: "NodeOTHERWISE", parser.NodePARAMS: "NodePARAMS", parser.NodePLUS: "NodePLUS", parser.NodePRESET: "NodePRESET",
-	parser.NodeRETURN: "NodeRETURN", parser.NodeSTATEMENTS: "NodeSTATEMENTS", parser.NodeSTRING: "NodeSTRING", parser.NodeTIMES: "NodeTIMES",
-	parser.NodeTRUE: "NodeTRUE", parser.NodeTRY: "NodeTRY",
-}
-
-func c06iNode(sb *strings.Builder, n *parser.ASTNode) {
-	if n == nil {
-		sb.WriteString("(Nd \"<nil>\" [] 0 0 [])")
-		return
-	}
-	flags, val, line := 0, "", 0
-	if n.Token != nil {
-		val, line = n.Token.Val, n.Token.Lline
-		if n.Token.Identifier {
-			flags |= 1
-		}
-		if n.Token.AllowEscapes {
-			flags |= 2
-		}
-	}
-	name, ok := c06iNodeConst[n.Name]
-	if !ok {
-		name = coqStr(n.Name)
-	}
-	fmt.Fprintf(sb, "(Nd %s %s %d %d ", name, CoqBytes(val), flags, line)
-	if len(n.Children) == 0 {
-		sb.WriteString("[])")
-		return
-	}
-	sb.WriteString("[")
-	for i, c := range n.Children {
-		if i > 0 {
-			sb.WriteString("; ")
-		}
-		c06iNode(sb, c)
-	}
-	sb.WriteString("])")
-}
-
-// c06iTree is CoqNode with the node names written as constants of gen/Tokens.v.
-func c06iTree(n *parser.ASTNode) string {
-	var sb strings.Builder
-	c06iNode(&sb, n)
-	return sb.String()
-}
-
-// ------------------------------------------------------------------------------- canonical values
-
-const c06iNaN = uint64(0x7FF8000000000001) // Expr.float_bits maps every NaN to this pattern
-
-func c06iBits(f float64) string {
-	b := math.Float64bits(f)
-	if math.IsNaN(f) {
-		b = c06iNaN
-	}
-	return fmt.Sprintf("%d%%Z", b)
-}
-
-// c06iCanon renders a value of the real interpreter as a term of RunC06Interp.oval; containers
-// nested deeper than d end in OOther (the model's reify does the same).
-func c06iCanon(v interface{}, d int) string {
-	switch x := v.(type) {
-	case nil:
-		return "ONull"
-	case bool:
-		return "(OBool " + CoqBool(x) + ")"
-	case float64:
-		return "(ONum " + c06iBits(x) + ")"
-	case string:
-		return "(OStr " + CoqBytes(x) + ")"
-	case []interface{}:
-		if d == 0 {
-			return "OOther"
-		}
-		items := make([]string, len(x))
-		for i, e := range x {
-			items[i] = c06iCanon(e, d-1)
-		}
-		return "(OList " + CoqList(items) + ")"
-	case map[interface{}]interface{}:
-		if d == 0 {
-			return "OOther"
-		}
-		items := make([]string, 0, len(x))
-		for k, e := range x {
-			items = append(items, "("+c06iCanon(k, d-1)+", "+c06iCanon(e, d-1)+")")
-		}
-		sort.Strings(items)
-		return "(OMap " + CoqList(items) + ")"
-	case util.ECALFunction:
-		return "OFun"
-	}
-	return "OOther"
-}
-
-// c06iErrType is Type.Error() of a runtime error (what an except clause compares with),
-// "UnexpectedError" for a plain Go error.
-func c06iErrType(err error) string {
-	switch e := err.(type) {
-	case *util.RuntimeError:
-		if e.Type != nil {
-			return e.Type.Error()
-		}
-		return "<nil type>"
-	case *util.RuntimeErrorWithDetail:
-		if e.RuntimeError != nil && e.Type != nil {
-			return e.Type.Error()
-		}
-		return "<nil type>"
-	}
-	// *interpreter.returnValue (unexported) embeds *util.RuntimeError
-	rv := reflect.ValueOf(err)
-	if rv.Kind() == reflect.Ptr && !rv.IsNil() && rv.Elem().Kind() == reflect.Struct {
-		if f := rv.Elem().FieldByName("RuntimeError"); f.IsValid() && f.CanInterface() {
-			if re, ok := f.Interface().(*util.RuntimeError); ok && re != nil && re.Type != nil {
-				return re.Type.Error()
-			}
-		}
-	}
-	return "UnexpectedError"
-}
-
-type c06iOutcome struct {
-	Class    string // value, error, panic, timeout, parse-error
-	Obs      string // Coq term of type obs
-	Tree     string // Coq term of type node
-	Nums     string
-	Strs     string
-	PanicKey string
-	PanicMsg string
-	Detail   string
-}
-
-// c06iTables collects the number tokens and string literals of the tree with their
-// strconv.ParseFloat results.
-func c06iTables(n *parser.ASTNode, nums map[string]string, strs map[string]string) {
-	if n == nil {
-		return
-	}
-	if n.Token != nil {
-		switch n.Name {
-		case parser.NodeNUMBER:
-			if f, err := strconv.ParseFloat(n.Token.Val, 64); err == nil {
-				nums[n.Token.Val] = c06iBits(f)
-			}
-		case parser.NodeSTRING:
-			if f, err := strconv.ParseFloat(n.Token.Val, 64); err == nil {
-				strs[n.Token.Val] = "(Some " + c06iBits(f) + ")"
-			} else {
-				strs[n.Token.Val] = "None"
-			}
-		}
-	}
-	for _, c := range n.Children {
-		c06iTables(c, nums, strs)
-	}
-}
-
-func c06iTable(m map[string]string) string {
-	keys := make([]string, 0, len(m))
-	for k := range m {
-		keys = append(keys, k)
-	}
-	sort.Strings(keys)
-	items := make([]string, len(keys))
-	for i, k := range keys {
-		items[i] = "(" + CoqBytes(k) + ", " + m[k] + ")"
-	}
-	return CoqList(items)
-}
-
-func c06iEval(src string, timeout time.Duration) c06iOutcome {
-	type result struct {
-		val        interface{}
-		err        error
-		parseErr   error
-		tree       string
-		nums, strs string
-		pmsg       string
-		stack      string
-	}
-	ch := make(chan result, 1)
-	var erp *interpreter.ECALRuntimeProvider
-	go func() {
-		var r result
-		defer func() {
-			if p := recover(); p != nil {
-				r.pmsg = fmt.Sprint(p)
-				if r.pmsg == "" {
-					r.pmsg = "panic"
-				}
-				r.stack = string(debug.Stack())
-			}
-			ch <- r
-		}()
-		erp = interpreter.NewECALRuntimeProvider("c06i", nil, nil)
-		erp.Cron.Stop()
-		ast, err := parser.ParseWithRuntime("c06i", src, erp)
-		if err != nil {
-			r.parseErr = err
-			return
-		}
-		r.tree = c06iTree(ast)
-		nums, strs := map[string]string{}, map[string]string{}
-		c06iTables(ast, nums, strs)
-		r.nums, r.strs = c06iTable(nums), c06iTable(strs)
-		if err = ast.Runtime.Validate(); err != nil {
-			r.err = err
-			return
-		}
-		vs := scope.NewScope(scope.GlobalScope)
-		r.val, r.err = ast.Runtime.Eval(vs, make(map[string]interface{}), erp.NewThreadID())
-	}()
-	var r result
-	select {
-	case r = <-ch:
-	case <-time.After(timeout):
-		return c06iOutcome{Class: "timeout"}
-	}
-	if erp != nil && erp.Processor != nil && !erp.Processor.Stopped() {
-		done := make(chan struct{})
-		go func() { defer func() { recover(); close(done) }(); erp.Processor.Finish() }()
-		select {
-		case <-done:
-		case <-time.After(2 * time.Second):
-		}
-	}
-	o := c06iOutcome{Tree: r.tree, Nums: r.nums, Strs: r.strs}
-	switch {
-	case r.parseErr != nil:
-		o.Class, o.Detail = "parse-error", r.parseErr.Error()
-	case r.pmsg != "":
-		st := r.stack
-		if i := strings.Index(st, "panic("); i >= 0 {
-			st = st[i:]
-		}
-		o.Class, o.Obs, o.PanicKey, o.PanicMsg = "panic", "ObsPanic", c06panicKey(r.pmsg, st), r.pmsg
-	case r.err != nil:
-		o.Class, o.Obs, o.Detail = "error", "(ObsError "+CoqBytes(c06iErrType(r.err))+")", r.err.Error()
-	default:
-		o.Class, o.Obs = "value", "(ObsValue "+c06iCanon(r.val, 12)+")"
-	}
-	return o
-}
 
 // c06iOne runs one program and writes its case.
 func c06iOne(c *Ctx, family, src string) {
